@@ -78,6 +78,108 @@ def run_forked(fn: Callable[[], Any], plan: Dict[str, Any], watch: Sequence[str]
     return {"status": status, "outcome": outcome}
 
 
+def run_interleaved(fn_a: Callable[[], Any], fn_b: Callable[[], Any], at: int, watch: Sequence[str],
+                    targets: Dict[str, str], result_path: str, flush_each: bool = False,
+                    blocked: Optional[Callable[[], bool]] = None, timeout: float = 120.0) -> Dict[str, Any]:
+    """One deterministic interleaving of two writers, in a forked child: thread 'A' runs fn_a and is
+    stopped right before its boundary `at`; then thread 'B' runs fn_b to completion; then A is
+    resumed and finishes.  The bytes of every target are recorded (hex) when A is paused, after B
+    and after A.  `blocked()` (optional) is asked while A is paused: if it says that B could not
+    proceed (A holds the lock that serialises the writers) B only runs after A has finished and
+    the outcome says so (`"serialised": True`)."""
+    import threading
+    try:
+        os.remove(result_path)
+    except FileNotFoundError:
+        pass
+    pid = os.fork()
+    if pid == 0:
+        code = 3
+        try:
+            inj = faults.Injector(watch, {"mode": "pause", "thread": "A", "at": at, "flush_each": flush_each},
+                                  list(targets))
+            out: Dict[str, Any] = {"snapshots": [], "serialised": False, "a_reached_boundary": False}
+            res: Dict[str, Any] = {}
+
+            def runner(name, fn):
+                try:
+                    res[name] = {"returned": repr(fn())[:200], "raised": None}
+                except BaseException as e:
+                    res[name] = {"returned": None, "raised": "%s: %s" % (type(e).__name__, str(e)[:300])}
+
+            def snap(label):
+                rec = {"label": label, "files": {}}
+                for n, p in targets.items():
+                    try:
+                        with faults._real_open(p, "rb") as f:
+                            rec["files"][n] = f.read().hex()
+                    except FileNotFoundError:
+                        rec["files"][n] = None
+                out["snapshots"].append(rec)
+
+            inj.install()
+            try:
+                ta = threading.Thread(target=runner, args=("A", fn_a), name="A")
+                tb = threading.Thread(target=runner, args=("B", fn_b), name="B")
+                ta.start()
+                while ta.is_alive() and not inj.paused.is_set():
+                    inj.paused.wait(0.002)
+                if inj.paused.is_set():
+                    out["a_reached_boundary"] = True
+                    snap("A paused before its boundary %d" % at)
+                    if blocked is not None and blocked():
+                        out["serialised"] = True
+                    else:
+                        tb.start()
+                        tb.join(timeout / 3)
+                        if tb.is_alive():
+                            out["b_stuck"] = True
+                        else:
+                            snap("B complete while A is paused")
+                    inj.resume.set()
+                ta.join(timeout / 3)
+                snap("A complete")
+                if not tb.is_alive() and tb.ident is None:
+                    tb.start()
+                tb.join(timeout / 3)
+                if out["serialised"] or not out["a_reached_boundary"]:
+                    snap("B complete after A")
+                out["stuck"] = ta.is_alive() or tb.is_alive()
+            finally:
+                inj.uninstall()
+            out["results"] = res
+            out["boundaries"] = inj.boundaries
+            with open(result_path + ".part", "w") as f:
+                json.dump(out, f)
+            os.rename(result_path + ".part", result_path)
+            code = 0
+        except BaseException as e:
+            try:
+                with faults._real_open(result_path + ".err", "w") as f:
+                    f.write(repr(e))
+            except Exception:
+                pass
+        finally:
+            os._exit(code)
+    t0 = time.time()
+    while True:
+        wpid, st = os.waitpid(pid, os.WNOHANG)
+        if wpid == pid:
+            status: Any = os.waitstatus_to_exitcode(st)
+            break
+        if time.time() - t0 > timeout:
+            os.kill(pid, 9)
+            os.waitpid(pid, 0)
+            status = "timeout"
+            break
+        time.sleep(0.0005)
+    outcome = None
+    if os.path.exists(result_path):
+        with open(result_path) as f:
+            outcome = json.load(f)
+    return {"status": status, "outcome": outcome}
+
+
 def plans(boundaries: List[Dict[str, Any]], cap: int = 10 ** 9, part: int = 0, nparts: int = 1
           ) -> Tuple[List[Dict[str, Any]], bool]:
     """All fault plans for one update (see module docstring); returns (plans, exhaustive)."""
